@@ -99,28 +99,73 @@ func (s *session) close() {
 }
 
 func (s *session) delete() error {
-	// Delete ephemeral data associated with this session
+	// Delete ephemeral data associated with this session.
+	//
+	// Other clients keep writing while the session goes away, so what is read
+	// here can be stale by the time the cleanup is applied: every record is
+	// deleted only if it is still the version that was seen as owned by this
+	// session. The session itself is deleted along with the first round: from
+	// that point no new record can be attached to it, and the rounds that
+	// follow (if any) take care of the records that the session wrote between
+	// the read and the cleanup.
 	sessionKey := SessionKey(s.id)
-	// Read "index"
-	keys, err := s.sm.leaderController.ListBlock(context.Background(), &proto.ListRequest{
-		Shard:          &s.shardId,
-		StartInclusive: sessionKey + "/",
-		EndExclusive:   sessionKey + "//",
-	})
-	if err != nil {
-		return err
+	deleteSession := true
+	for {
+		// Read "index"
+		keys, err := s.sm.leaderController.ListBlock(context.Background(), &proto.ListRequest{
+			Shard:          &s.shardId,
+			StartInclusive: sessionKey + "/",
+			EndExclusive:   sessionKey + "//",
+		})
+		if err != nil {
+			return err
+		}
+		if vhook.Enabled {
+			vhook.At("session.delete.listed", s.sm.leaderController, int64(s.id), keys)
+		}
+		if len(keys) == 0 && !deleteSession {
+			return nil
+		}
+
+		s.log.Debug(
+			"Keys to delete",
+			slog.Any("keys", keys),
+		)
+		deletes, err := s.ephemeralDeletes(sessionKey, keys)
+		if err != nil {
+			return err
+		}
+		if deleteSession {
+			// Delete the base session metadata
+			deletes = append(deletes, &proto.DeleteRequest{
+				Key: sessionKey,
+			})
+			deleteSession = false
+		}
+		cleanup := &proto.WriteRequest{
+			Shard:   &s.shardId,
+			Deletes: deletes,
+		}
+		// server-side write: it addresses the session's own internal keys
+		if _, err = s.sm.leaderController.writeBlock(context.Background(), func(_ int64) *proto.WriteRequest { return cleanup }); err != nil {
+			return err
+		}
+		s.log.Info("Session cleanup complete",
+			slog.Int("keys-deleted", len(deletes)))
+		if len(keys) == 0 {
+			return nil
+		}
 	}
-	if vhook.Enabled {
-		vhook.At("session.delete.listed", s.sm.leaderController, int64(s.id), keys)
-	}
-	// Delete ephemerals
+}
+
+// ephemeralDeletes prepares the deletion of the records listed in the session
+// "index": a record that is still owned by the session is deleted if it has
+// not changed in the meantime, the index entry of a record that is gone or
+// that was taken over by someone else is just dropped.
+func (s *session) ephemeralDeletes(sessionKey string, shadowKeys []string) ([]*proto.DeleteRequest, error) {
 	var deletes []*proto.DeleteRequest
-	s.log.Debug(
-		"Keys to delete",
-		slog.Any("keys", keys),
-	)
-	for _, key := range keys {
-		unescapedKey, err := url.PathUnescape(key[len(sessionKey)+1:])
+	for _, shadowKey := range shadowKeys {
+		unescapedKey, err := url.PathUnescape(shadowKey[len(sessionKey)+1:])
 		if err != nil {
 			s.log.Error(
 				"Invalid session key",
@@ -129,34 +174,29 @@ func (s *session) delete() error {
 			)
 			continue
 		}
-		if unescapedKey != "" {
+		if unescapedKey == "" {
+			continue
+		}
+		entry, err := s.sm.leaderController.db.Get(&proto.GetRequest{
+			Key:          unescapedKey,
+			IncludeValue: false,
+		})
+		if err != nil {
+			return nil, err
+		}
+		if entry.Status == proto.Status_OK && entry.Version != nil &&
+			entry.Version.SessionId != nil && *entry.Version.SessionId == int64(s.id) {
 			deletes = append(deletes, &proto.DeleteRequest{
-				Key: unescapedKey,
+				Key:               unescapedKey,
+				ExpectedVersionId: &entry.Version.VersionId,
+			})
+		} else {
+			deletes = append(deletes, &proto.DeleteRequest{
+				Key: shadowKey,
 			})
 		}
 	}
-
-	// Delete the base session metadata
-	deletes = append(deletes, &proto.DeleteRequest{
-		Key: sessionKey,
-	})
-	cleanup := &proto.WriteRequest{
-		Shard:   &s.shardId,
-		Puts:    nil,
-		Deletes: deletes,
-		// Delete the whole index of ephemeral keys for the session
-		DeleteRanges: []*proto.DeleteRangeRequest{
-			{
-				StartInclusive: sessionKey + "/",
-				EndExclusive:   sessionKey + "//",
-			},
-		},
-	}
-	// server-side write: it addresses the session's own internal keys
-	_, err = s.sm.leaderController.writeBlock(context.Background(), func(_ int64) *proto.WriteRequest { return cleanup })
-	s.log.Info("Session cleanup complete",
-		slog.Int("keys-deleted", len(deletes)))
-	return err
+	return deletes, nil
 }
 
 func (s *session) heartbeat() {
